@@ -106,6 +106,10 @@ where
     }
 
     fn register(&self, world: &mut World, how: &str) {
+        // "<method>+late": no reader of the event channel is registered at set-up; one is by a later
+        // "newreader" operation (events before that are not expected to reach it)
+        let late = how.ends_with("+late");
+        let how = how.trim_end_matches("+late");
         match how {
             "register" => world.register::<T>(),
             "register_with" => world.register_with_storage::<_, T>(Default::default),
@@ -123,7 +127,9 @@ where
             }
             _ => panic!("harness: unknown registration method {}", how),
         }
-        T::register_reader(world);
+        if !late {
+            T::register_reader(world);
+        }
     }
 
     fn tracked(&self) -> &'static str {
@@ -167,6 +173,19 @@ where
                 let ents = world.entities();
                 let mut st = wr::<T>(world);
                 let mut items = vec![];
+                // other consumers of the draining join (the iterator's provided methods)
+                if n < 0 && v == "count" {
+                    // nothing is handed out: every drained value is destroyed by the iterator
+                    let cnt = (&ents, st.drain()).join().count();
+                    return Some(json!({"n": n, "items": items, "cnt": cnt}));
+                }
+                if n < 0 && v == "for_each" {
+                    (&ents, st.drain()).join().for_each(|(e, c)| {
+                        items.push(json!([e.id(), c.js()]));
+                        give_back(c);
+                    });
+                    return Some(json!({"n": n, "items": items}));
+                }
                 let mut it = (&ents, st.drain()).join();
                 loop {
                     if n >= 0 && items.len() as i64 >= n {
@@ -185,6 +204,14 @@ where
             "clear" => {
                 let mut st = wr::<T>(world);
                 st.clear();
+                json!({})
+            }
+            "newreader" => {
+                // a (further) reader registers now: it is the one whose events are recorded from here on
+                if T::tracked() == "none" {
+                    return None;
+                }
+                T::register_reader(world);
                 json!({})
             }
             "count" => {
